@@ -49,7 +49,10 @@ class World:
                 e[0] = "c%de%d" % (ci, j)
                 e[1] = T_CUT + 1000 * (j + 1)
                 if kind == "outside":
-                    e[3] = S.L.ex[-1] + 5 * S.L.fdh  # lon beyond the bounding box
+                    if (ci + j) % 2:
+                        e[3] = S.L.ex[-1] + 5 * S.L.fdh  # lon beyond the bounding box
+                    else:
+                        e[2] = S.L.ey[-1] + 5 * S.L.fdh  # lat beyond the bounding box (longitude stays inside a column)
                 elif kind == "below":
                     e[5] = S.edges[0] - S.hm / 2
                 elif kind == "early":
